@@ -21,6 +21,8 @@ EXPLANATION = (
     "self.entry.associated_data(path_segment) to self.signed.validate and propagates its error; associated_data is "
     "info.encoded chained with header_and_body and signature of every entry before this one. (WMC) SignedAsEntry is only "
     "constructed where its entry is decoded from its own signed message, or its signed message is computed from its entry. "
+    "(CAST-header) the segment header, which is re-encoded from decoded values into the signature input, is decoded with "
+    "checked conversions only (no lossy `as`); the prefix scan of associated_data compares whole entries. "
     "(PANIC) no undischarged panic site reachable from any RPC conversion (try_from_rpc / TryFrom<rpc::*> / from_rpc in "
     "segment::rpc, path, path::metadata) or from validate/decode_*."
 )
@@ -276,6 +278,24 @@ def chain_rules(F, R):
     ok = any(t.endswith("::once") for t in tk) and "field:encoded" in tk and any(t.endswith("::chain") for t in tk) \
         and any(t.endswith("::take_while") for t in tk) and any(t.endswith("::flat_map") for t in tk) \
         and "field:header_and_body" in kt and "field:signature" in kt
+    # the prefix scan stops at the entry itself: take_while's predicate compares the WHOLE entry (derived PartialEq of
+    # AsEntry) with self — a weaker test (same AS, same interface …) stops early and leaves predecessors unsigned
+    tw = [c for c in ab.calls if not c.indirect and c.decl.endswith("Iterator::take_while")]
+    okp = False
+    for c in tw:
+        co = ab.origin(c.args[1])
+        if co[0] == "agg" and co[1][0] == "closure":
+            kb = F.body(co[1][1])
+            ro = strip_sites(kb.local_origin(0)) if kb is not None else None
+            cmpc = [x for x in kb.calls if not x.indirect and x.decl in ("core::cmp::PartialEq::ne", "core::cmp::PartialEq::eq")] if kb is not None else []
+            if ro and ro[0] == "call" and ro[1] in ("core::cmp::PartialEq::ne", "core::cmp::PartialEq::eq") and cmpc and all((x.selfty or "") == SEG + "AsEntry" for x in cmpc):
+                a0, a1 = PN._peel_refs(ro[2][0]), PN._peel_refs(ro[2][1])
+                sides = {fmt(a0, 60), fmt(a1, 60)}
+                okp = any("entry" in x for x in sides) and any("env" in x for x in sides)
+    R.ob("CHAIN", "associated_data: the prefix ends where an entry equals self as a whole AsEntry", okp, True)
+    if not okp:
+        R.violation("CHAIN", ad + "/prefix-predicate", "the scan for 'all entries before this one' no longer compares whole entries: an entry spliced in front of this one "
+                    "(same AS / partial equality) is not covered by this entry's signature input", F.loc(ad))
     R.ob("CHAIN", "associated_data = once(info.encoded).chain(entries before self → [header_and_body, signature])", ok, True,
          {"rule": "CHAIN", "closure_fields": sorted(t for t in kt if t.startswith("field:"))[:12], "holds": ok})
     if not ok:
@@ -327,6 +347,18 @@ def cast_rule(F, R, ents):
                                 bad = False
                             if bad:
                                 listed.append({"fn": q, "loc": b.span_of(st[3]).loc, "cast": "%s as %s" % (fr, to)})
+    # the segment header is different: SignedPathSegment::try_from_rpc does not keep the received header bytes, it re-encodes
+    # the header from the decoded values and that re-encoding is the first chunk of every entry's signature input.  A lossy
+    # conversion there erases bits before verification ("changing any bit of the header makes validation fail" breaks).
+    for x in listed:
+        if "SegmentInfo" in x["fn"] or "SegmentInformation" in x["fn"]:
+            R.ob("CAST-header", "%s: %s" % (short(x["fn"]), x["cast"]), False, True)
+            R.violation("CAST-header", "%s/%s" % (x["fn"], x["cast"]), "segment header field narrowed with `%s` while decoding: the header is re-encoded from the narrowed "
+                        "value into the signature input, so tampered high bits vanish before verification" % x["cast"], x["loc"])
+    hdr = [p for p in ents if ("SegmentInfo" in p or "SegmentInformation" in p) and p.split("::")[-1] in ("try_from_rpc", "try_from")]
+    R.floor("CAST-header", len(hdr), 1, "SegmentInfo RPC decoders examined for lossy conversions")
+    if not any("SegmentInfo" in x["fn"] for x in listed):
+        R.ob("CAST-header", "SegmentInfo::try_from_rpc narrows no RPC field with `as` (checked conversions only)", True, True)
     # informational only: the property demands "a value or an error without panicking" and a lossless round trip from
     # the model side; a wrapping cast of an out-of-range RPC field breaks neither, so it is listed, not reported
     R.extra["rpc_decode_casts"] = {"examined": n, "sign_changing_or_narrowing_on_rpc_values": listed}
